@@ -229,8 +229,8 @@ class CounterModel(object):
         start = self.epoch_from
         if solver == 'Powell' and start and T.get('aborted_step'):
             # (Powell keeps the record of an iteration that a raising cost aborted -- listed finding -- so after such a run the index at
-            # which a later mid-run change of the objective takes effect in the history is one further on)
-            start += 1
+            # which a later mid-run change of the objective takes effect in the history is one further on per aborted iteration)
+            start += len(h.run.raised)
         for i in range(start, len(eh) - 1):     # within one objective epoch
             a, b = eh[i], eh[i + 1]
             if isinstance(a, float) and isinstance(b, float) and b > a:
